@@ -15,6 +15,9 @@ import Gotree.Lemmas.C16Script
 import Gotree.Lemmas.C16Keys
 import Gotree.Lemmas.C16Index
 import Gotree.Lemmas.C16Extra
+import Gotree.Lemmas.C16Doc
+import Gotree.Lemmas.C16Surj2
+import Gotree.Lemmas.C16Surj3
 
 namespace Gotree.C16
 open Gotree
@@ -116,6 +119,15 @@ theorem gen_index_complete (g : GenKind) (n : Nat) (rooted : Bool) (ints : List 
   · obtain ⟨o, h1, _, hp, _, _, hix⟩ := gen_ok g n rooted ints lens hg h hd hl
     exact ⟨o, h1, key o hp hix⟩
 
+/-- `gen_meets_oracle` for the oracle predicate the driver evaluates since round 3 (`genTreeOK2`: as
+    `genTreeOK`, but the balanced shape of an unrooted tree may be seen from any node, so that the
+    place where the tree is hung is not part of the claim) -/
+theorem gen_meets_oracle2 (g : GenKind) (n : Nat) (rooted : Bool) (ints : List Nat) (lens : List Rat)
+    (h : g.min rooted ≤ n) (hd : drawsInRange g n rooted ints = true) (hl : lensNonneg lens = true) :
+    ∃ o, run g (n : Int) rooted ints lens = .ok o ∧ genTreeOK2 g n rooted o.t = true := by
+  obtain ⟨o, h1, h2⟩ := gen_meets_oracle g n rooted ints lens h hd hl
+  exact ⟨o, h1, genTreeOK2_of_genTreeOK g n rooted o.t h2⟩
+
 /-! ### gen_rejects -/
 
 /-- Sizes below the minimum (negative ones included) are answered by an error — never by a
@@ -139,6 +151,39 @@ theorem gen_rejects (g : GenKind) (n : Int) (rooted : Bool) (ints : List Nat) (l
   | star =>
     have : n < 2 := by simpa [GenKind.min] using h
     simp [run, star, this, Res.isErr]
+
+/-! ### the documented minimum and the effective one
+
+   `GenKind.docMin` is what the guards of the code and their messages document; `GenKind.min` is
+   the size from which a call succeeds (hypothesis of `gen_ok`, bound of `gen_rejects`).  Since
+   f417e91 (found by this check's audit) they coincide. -/
+
+/-- the documented minimum is the effective one: no size is documented as valid and then rejected -/
+theorem documented_minimum (g : GenKind) (n : Int) (rooted : Bool) :
+    g.docMin rooted = g.min rooted ∧ docGap g n rooted = false :=
+  ⟨docMin_eq_min g rooted, docGap_false g n rooted⟩
+
+/-- before f417e91 the guards documented 2 tips for the unrooted insertion generators: that call
+    passed them and ended in the unrelated error of `RerootFirst`; now it is refused by the guard -/
+theorem two_tips_unrooted_doc_pinned_fails :
+    (match insertionGenDoc2 (yuleStep [] []) 2 false [] with | .err m => m == errNoDeg3 | _ => false) = true ∧
+    (match insertionGen (yuleStep [] []) 2 false [] with | .err m => m == errLess3All | _ => false) = true := by
+  decide +kernel
+
+/-- from the documented minimum on, outside that region, every call succeeds (`gen_ok` restated with
+    the documented bound) -/
+theorem gen_ok_documented (g : GenKind) (n : Nat) (rooted : Bool) (ints : List Nat) (lens : List Rat)
+    (hg : g ≠ .star) (h : g.docMin rooted ≤ n) (hgap : docGap g (n : Int) rooted = false)
+    (hd : drawsInRange g n rooted ints = true) (hl : lensNonneg lens = true) :
+    ∃ o, run g (n : Int) rooted ints lens = .ok o ∧ o.t.binary = true ∧
+      o.t.tipNames.Perm (tipNamesUpTo (g.ntips n)) ∧ o.t.rooted = rooted ∧ lensOk o.t = true ∧
+      indexReady o = true := by
+  have hmin : g.min rooted ≤ n := by
+    unfold docGap at hgap
+    have h' : ((g.docMin rooted : Nat) : Int) ≤ (n : Int) := by omega
+    simp only [h', decide_true, Bool.true_and, decide_eq_false_iff_not] at hgap
+    omega
+  exact gen_ok g n rooted ints lens hg hmin hd hl
 
 /-! ### shapes -/
 
@@ -311,10 +356,9 @@ theorem allTopologies_rejects (n : Int) (rooted : Bool) (names : List String)
       · have hpos : names.length > 0 := List.length_pos_iff.mpr hne
         simp [hpos, hl, Res.isErr]
 
-/- What is still not proved about distinctness: that the *sorted string key* `topoKey` which the
-   oracle uses on large enumerations (n = 7, 8) identifies the same trees as `famEq` / `USame`
-   (it involves `List.mergeSort`).  The driver evaluates both on n ≤ 6 (they agree), and the
-   following kernel evaluation checks the model's enumeration with the Spec's own predicates. -/
+/- An extra instance, kept from round 1: kernel evaluation of the older string-key predicates on the
+   model's enumeration for small n (the general statements are `allTopologies_nodup`,
+   `allTopologies_nodup_unrooted`, `allTopologies_meets_oracle` and `topoOKN_sound` below). -/
 
 /-- partial: pairwise distinct canonical forms, with the right count and well-formed trees, for
     the sizes 3 … 6 (unrooted) and 2 … 5 (rooted) — kernel evaluation of the model -/
@@ -395,6 +439,81 @@ theorem allTopologies_meets_oracle (n : Nat) (rooted : Bool) (names : List Strin
       subst e3
       simpa using hd
 
+/-! ### exhaustiveness: every labelled binary topology is enumerated
+
+   Together with `allTopologies_nodup` / `_nodup_unrooted` this is "each topology exactly once"
+   without appeal to the classical count of labelled binary trees (which becomes a corollary of
+   `allTopologies_count`).  Proof: prune the last tip of the given tree, find the smaller tree in
+   the enumeration (induction), re-insert the tip on the matching branch (`Lemmas/C16Surj`). -/
+
+/-- ROOTED: every rooted binary tree on the `n` names (root with two children, every inner node with
+    two children, tips = the names) has the same set of clades as one of the enumerated trees -/
+theorem allTopologies_exhaustive_rooted (n : Nat) (names : List String) (h : 2 ≤ n)
+    (hn : names = [] ∨ (names.length = n ∧ names.Nodup)) :
+    ∃ ts, allTopologies (n : Int) true names = .ok ts ∧
+      ∀ t : T, t.kids.length = 2 → binaryL t.kids = true → (leavesL t.kids).Perm (topoNames names n) →
+        ∃ t' ∈ ts, FamEq (belowFam t) (belowFam t') := by
+  refine ⟨_, allTopologies_eq n true names (by simpa using h) (hn.imp id (·.1)), ?_⟩
+  intro t hdeg hbin hleaves
+  have := exhaustive_rooted_lemma (topoName names) n (topoName_inj names n hn) h t hdeg hbin hleaves
+  have e2 : (topoInit (topoName names) true).2 = 1 := rfl
+  simpa only [belowFam_eq, e2] using this
+
+/-- UNROOTED: every binary tree on the `n` names, drawn from the node that joins the first three names
+    (root with three children, every other inner node with two, no leaf set below a branch holding two
+    of the first three names — every unrooted binary tree has exactly one such drawing), has the same
+    family of leaf sets as one of the enumerated trees -/
+theorem allTopologies_exhaustive_unrooted (n : Nat) (names : List String) (h : 3 ≤ n)
+    (hn : names = [] ∨ (names.length = n ∧ names.Nodup)) :
+    ∃ ts, allTopologies (n : Int) false names = .ok ts ∧
+      ∀ t : T, t.kids.length = 3 → binaryL t.kids = true → (leavesL t.kids).Perm (topoNames names n) →
+        Q3 (topoName names 0) (topoName names 1) (topoName names 2) (belowFam t) →
+        ∃ t' ∈ ts, FamEq (belowFam t) (belowFam t') := by
+  refine ⟨_, allTopologies_eq n false names (by simpa using h) (hn.imp id (·.1)), ?_⟩
+  intro t hdeg hbin hleaves hq
+  rw [belowFam_eq] at hq
+  have := exhaustive_unrooted_lemma (topoName names) n (topoName_inj names n hn) h t hdeg hbin hleaves hq
+  have e2 : (topoInit (topoName names) false).2 = 3 := rfl
+  simpa only [belowFam_eq, e2] using this
+
+/-- UNROOTED, any drawing: every binary tree on the `n` names drawn from ANY node of degree three
+    (root with three children, every other inner node with two) has the same set of splits — leaf
+    sets up to complement, `USame` — as one of the enumerated trees.  (The tree is first re-drawn from
+    the node joining the first three names, `median_drawing`, which keeps the split set.) -/
+theorem allTopologies_exhaustive_unrooted_any (n : Nat) (names : List String) (h : 3 ≤ n)
+    (hn : names = [] ∨ (names.length = n ∧ names.Nodup)) :
+    ∃ ts, allTopologies (n : Int) false names = .ok ts ∧
+      ∀ t : T, t.kids.length = 3 → binaryL t.kids = true → (leavesL t.kids).Perm (topoNames names n) →
+        ∃ t' ∈ ts, USame (topoNames names n) (belowFam t) (belowFam t') := by
+  obtain ⟨ts, h1, hex⟩ := allTopologies_exhaustive_unrooted n names h hn
+  obtain ⟨ts2, h2, hwf⟩ := allTopologies_wellformed n false names (by simpa using h) (hn.imp id (·.1))
+  have e2 : ts2 = ts := res_ok_inj (h2.symm.trans h1)
+  subst e2
+  refine ⟨ts2, h1, ?_⟩
+  intro t hdeg hbin hleaves
+  have hinj := topoName_inj names n hn
+  have hall : (topoNames names n).Nodup := namesUpTo_nodup (topoName names) n n hinj (Nat.le_refl n)
+  have n01 : topoName names 0 ≠ topoName names 1 := fun e => by have := hinj 0 1 (by omega) (by omega) e; omega
+  have n02 : topoName names 0 ≠ topoName names 2 := fun e => by have := hinj 0 2 (by omega) (by omega) e; omega
+  have n12 : topoName names 1 ≠ topoName names 2 := fun e => by have := hinj 1 2 (by omega) (by omega) e; omega
+  have hU : U3 (topoNames names n) t := ⟨hdeg, hbin, hleaves⟩
+  obtain ⟨t₂, hU2, hq2, hus⟩ := median_drawing (topoNames names n) hall _ _ _ n01 n02 n12 t hU
+  obtain ⟨t', ht', hfe⟩ := hex t₂ hU2.deg hU2.bin hU2.leaves (by rw [belowFam_eq]; exact hq2)
+  refine ⟨t', ht', ?_⟩
+  rw [belowFam_eq] at hfe ⊢
+  rw [belowFam_eq] at hfe
+  rw [belowFam_eq]
+  have hin' : FamIn (topoNames names n) (belowsL t'.kids) := by
+    have := famIn_of_tips (topoNames names n) t' (hwf t' ht').1
+    rwa [belowFam_eq] at this
+  exact USame.trans (famIn_of_U3 hU) hin' hus (uSame_of_famEq _ hfe)
+
+/-- the hypotheses of the two theorems are satisfiable: the caterpillars ((Tip1,Tip2),(Tip3,Tip4)) and
+    ((Tip4,Tip1),Tip2,Tip3) -/
+example : (leavesL (T.node ⟨"", []⟩ 0 [(EdgeD.blank, .node ⟨"", []⟩ 0 [(EdgeD.blank, T.leaf "Tip1"), (EdgeD.blank, T.leaf "Tip2")]),
+    (EdgeD.blank, .node ⟨"", []⟩ 0 [(EdgeD.blank, T.leaf "Tip3"), (EdgeD.blank, T.leaf "Tip4")])]).kids) =
+    ["Tip1", "Tip2", "Tip3", "Tip4"] := by decide
+
 /-! ### the other constructors of treegen.go -/
 
 /-- `StarTreeFromName`: with at least two names, a star carrying exactly these names in this order,
@@ -446,6 +565,14 @@ theorem edgeTree_ok (tin : T) (k : Nat) (hk : k < tin.splits.length) (hn : tin.t
       twoStarOK (tin.tipNames.filter fun x => !(tin.splits[k]).below.contains x)
         (tin.tipNames.filter fun x => (tin.splits[k]).below.contains x) o.t = true :=
   edgeTree_ok_lemma tin k hk hn
+
+/-- which inputs these constructors reject, read off the inputs alone (the predicates the driver uses
+    as oracle; the model is only used for the tie) -/
+theorem extra_rejections (names left right : List String) (tin : T) :
+    (starFromNames names).isErr = starnMustReject names ∧
+    (starFromTree tin).isErr = startMustReject tin ∧
+    (bipartitionTree left right).isErr = bipartMustReject left right :=
+  ⟨starFromNames_isErr_iff names, starFromTree_isErr_iff tin, bipartitionTree_isErr_iff left right⟩
 
 /-! ### pinned variants: the repaired defects, as theorems about the old behaviour -/
 
